@@ -98,6 +98,18 @@ pub struct ACtl {
     pub sticky: AtomicBool,
     pub calls: AtomicU64,
     pub faults_fired: AtomicU64,
+    /// recorder of mutating trait calls (node, method, path, second path, succeeded)
+    pub rec_on: AtomicBool,
+    pub rec: Mutex<Vec<ARec>>,
+}
+
+#[derive(Clone, Debug)]
+pub struct ARec {
+    pub node: u16,
+    pub method: &'static str,
+    pub path: String,
+    pub path2: Option<String>,
+    pub ok: bool,
 }
 
 impl ACtl {
@@ -127,6 +139,14 @@ impl ACtl {
         } else {
             None
         }
+    }
+    pub fn record(&self, node: u16, method: &'static str, path: &str, path2: Option<&str>, ok: bool) {
+        if self.rec_on.load(Ordering::Relaxed) {
+            self.rec.lock().unwrap().push(ARec { node, method, path: path.to_string(), path2: path2.map(|s| s.to_string()), ok });
+        }
+    }
+    pub fn take_rec(&self) -> Vec<ARec> {
+        std::mem::take(&mut *self.rec.lock().unwrap())
     }
     pub fn quiet<T>(&self, f: impl FnOnce() -> T) -> T {
         let o = self.on.swap(false, Ordering::SeqCst);
@@ -287,7 +307,9 @@ impl AsyncFileSystem for PendFS {
         if let Some(e) = self.ctl.fault() {
             return Err(vfs::VfsError::from(e));
         }
-        self.inner.create_dir(path).await
+        let r = self.inner.create_dir(path).await;
+        self.ctl.record(self.node, "create_dir", path, None, r.is_ok());
+        r
     }
     async fn open_file(&self, path: &str) -> VfsResult<Box<dyn SeekAndRead + Send + Unpin>> {
         YieldN(self.ctl.draw()).await;
@@ -302,7 +324,9 @@ impl AsyncFileSystem for PendFS {
         if let Some(e) = self.ctl.fault() {
             return Err(vfs::VfsError::from(e));
         }
-        let h = self.inner.create_file(path).await?;
+        let h = self.inner.create_file(path).await;
+        self.ctl.record(self.node, "create_file", path, None, h.is_ok());
+        let h = h?;
         Ok(Box::new(PendWrite { inner: h, ctl: self.ctl.clone(), left: None }))
     }
     async fn append_file(&self, path: &str) -> VfsResult<Box<dyn Write + Send + Unpin>> {
@@ -310,7 +334,9 @@ impl AsyncFileSystem for PendFS {
         if let Some(e) = self.ctl.fault() {
             return Err(vfs::VfsError::from(e));
         }
-        let h = self.inner.append_file(path).await?;
+        let h = self.inner.append_file(path).await;
+        self.ctl.record(self.node, "append_file", path, None, h.is_ok());
+        let h = h?;
         Ok(Box::new(PendWrite { inner: h, ctl: self.ctl.clone(), left: None }))
     }
     async fn metadata(&self, path: &str) -> VfsResult<VfsMetadata> {
@@ -325,21 +351,27 @@ impl AsyncFileSystem for PendFS {
         if let Some(e) = self.ctl.fault() {
             return Err(vfs::VfsError::from(e));
         }
-        self.inner.set_creation_time(path, time).await
+        let r = self.inner.set_creation_time(path, time).await;
+        self.ctl.record(self.node, "set_creation_time", path, None, r.is_ok());
+        r
     }
     async fn set_modification_time(&self, path: &str, time: SystemTime) -> VfsResult<()> {
         YieldN(self.ctl.draw()).await;
         if let Some(e) = self.ctl.fault() {
             return Err(vfs::VfsError::from(e));
         }
-        self.inner.set_modification_time(path, time).await
+        let r = self.inner.set_modification_time(path, time).await;
+        self.ctl.record(self.node, "set_modification_time", path, None, r.is_ok());
+        r
     }
     async fn set_access_time(&self, path: &str, time: SystemTime) -> VfsResult<()> {
         YieldN(self.ctl.draw()).await;
         if let Some(e) = self.ctl.fault() {
             return Err(vfs::VfsError::from(e));
         }
-        self.inner.set_access_time(path, time).await
+        let r = self.inner.set_access_time(path, time).await;
+        self.ctl.record(self.node, "set_access_time", path, None, r.is_ok());
+        r
     }
     async fn exists(&self, path: &str) -> VfsResult<bool> {
         YieldN(self.ctl.draw()).await;
@@ -353,35 +385,45 @@ impl AsyncFileSystem for PendFS {
         if let Some(e) = self.ctl.fault() {
             return Err(vfs::VfsError::from(e));
         }
-        self.inner.remove_file(path).await
+        let r = self.inner.remove_file(path).await;
+        self.ctl.record(self.node, "remove_file", path, None, r.is_ok());
+        r
     }
     async fn remove_dir(&self, path: &str) -> VfsResult<()> {
         YieldN(self.ctl.draw()).await;
         if let Some(e) = self.ctl.fault() {
             return Err(vfs::VfsError::from(e));
         }
-        self.inner.remove_dir(path).await
+        let r = self.inner.remove_dir(path).await;
+        self.ctl.record(self.node, "remove_dir", path, None, r.is_ok());
+        r
     }
     async fn copy_file(&self, src: &str, dest: &str) -> VfsResult<()> {
         YieldN(self.ctl.draw()).await;
         if let Some(e) = self.ctl.fault() {
             return Err(vfs::VfsError::from(e));
         }
-        self.inner.copy_file(src, dest).await
+        let r = self.inner.copy_file(src, dest).await;
+        self.ctl.record(self.node, "copy_file", src, Some(dest), r.is_ok());
+        r
     }
     async fn move_file(&self, src: &str, dest: &str) -> VfsResult<()> {
         YieldN(self.ctl.draw()).await;
         if let Some(e) = self.ctl.fault() {
             return Err(vfs::VfsError::from(e));
         }
-        self.inner.move_file(src, dest).await
+        let r = self.inner.move_file(src, dest).await;
+        self.ctl.record(self.node, "move_file", src, Some(dest), r.is_ok());
+        r
     }
     async fn move_dir(&self, src: &str, dest: &str) -> VfsResult<()> {
         YieldN(self.ctl.draw()).await;
         if let Some(e) = self.ctl.fault() {
             return Err(vfs::VfsError::from(e));
         }
-        self.inner.move_dir(src, dest).await
+        let r = self.inner.move_dir(src, dest).await;
+        self.ctl.record(self.node, "move_dir", src, Some(dest), r.is_ok());
+        r
     }
 }
 
@@ -474,7 +516,7 @@ fn abuild_rec<'a>(spec: &'a Spec, ctl: &'a Arc<ACtl>, next_id: &'a mut u16, base
 }
 
 pub fn abuild(spec: &Spec, order_seed: u64, permute: bool, pend_seed: u64, pend_pct: u32) -> Result<ABuilt, String> {
-    let ctl = Arc::new(ACtl { order_seed, permute, on: AtomicBool::new(false), rng: Mutex::new(Rng::new(pend_seed)), pend_pct, injected: AtomicU64::new(0), fail_at: AtomicU64::new(0), sticky: AtomicBool::new(false), calls: AtomicU64::new(0), faults_fired: AtomicU64::new(0) });
+    let ctl = Arc::new(ACtl { order_seed, permute, on: AtomicBool::new(false), rng: Mutex::new(Rng::new(pend_seed)), pend_pct, injected: AtomicU64::new(0), fail_at: AtomicU64::new(0), sticky: AtomicBool::new(false), calls: AtomicU64::new(0), faults_fired: AtomicU64::new(0), rec_on: AtomicBool::new(false), rec: Mutex::new(vec![]) });
     let mut next_id = 0u16;
     let mut base = None;
     let mut st = PollStats::default();
